@@ -85,7 +85,7 @@ func runC01(c *Ctx, r *Report, tier string) {
 	// ---- UNTOUCHED
 	sn := c.fname(ss)
 	var optLit *ssa.Alloc
-	for _, b := range ss.Blocks {
+	for _, b := range c.blocks(ss) {
 		for _, in := range b.Instrs {
 			if al, ok := in.(*ssa.Alloc); ok && al.Comment == "complit" && typeName(al.Type()) == "Option" {
 				optLit = al
@@ -134,7 +134,7 @@ func runC01(c *Ctx, r *Report, tier string) {
 	}
 	// Set twice only through the optional-value loop
 	sets := c.instrs(po, c.isCallTo("(*Option).Set"))
-	loops := loopsOf(po)
+	loops := c.loopsDeep(po)
 	for _, s := range sets {
 		inLoop := innermost(loops, s.Block()) != nil
 		q := &PathQ{c: c, Fn: po, NoBack: true}
@@ -220,8 +220,8 @@ func runC01(c *Ctx, r *Report, tier string) {
 	c.ruleMapSplit(r, "STORE", cv)
 	okTrue := false
 	for _, in := range c.instrs(cv, c.isCallTo("(reflect.Value).SetBool")) {
-		if c.term(in.(*ssa.Call).Call.Args[1]) == "true" {
-			_, okTrue = c.Requires(cv, isInstr(in), litIs("nonempty(P0)", false), nil)
+		if t := c.term(in.(*ssa.Call).Call.Args[1]); t == "true" || strings.HasPrefix(t, "phi{") && strings.Contains(t, "true") {
+			okTrue = c.boolStoreOK(cv, in, in.(*ssa.Call).Call.Args[1])
 		}
 	}
 	r.Check(okTrue, "STORE", cn, "flag without argument stores true", c.pos(cv.Pos()), "SetBool(true) exactly for the empty value", "an argument-less flag occurrence does not store true")
